@@ -21,7 +21,7 @@ TNext == /\ l <= Len(TraceLog) /\ l' = l + 1 /\ UNCHANGED vars
                 drift == IF e.rc = 0 /\ e.c1 # Cols(P, e.o) THEN {"ColumnsAsModel"} ELSE {}
             IN (bad # {} \/ drift # {}) => PrintT("@@" \o ToJson([l |-> l, id |-> e.id, bad |-> bad, drift |-> drift,
                                                                   expected |-> IF e.rc = 0 THEN Cols(P, e.o) ELSE <<>>]))
-TInit == l = 1 /\ prog = <<>> /\ stack = <<>>
+TInit == l = 1 /\ prog = <<>> /\ stack = <<>> /\ closed = ""
 TSpec == TInit /\ [][TNext]_<<l, vars>>
 TraceAccepted == TLCGet("stats").diameter - 1 = Len(TraceLog)
 =============================================================================
